@@ -22,13 +22,13 @@ theorem eventDefs_map_usage {α} (l : List α) (g : α → Usage) : eventDefs (l
   | cons x xs ih => simp [eventDefs, ih]
 
 theorem eventDefs_strUsages (f : Path) (l : List (String × Range)) :
-    eventDefs (l.map (strUsage f (· + 1) (· - 1))) = [] := by
+    eventDefs (l.map (strUsage f lines)) = [] := by
   induction l with
   | nil => rfl
   | cons x xs ih => simp [eventDefs, strUsage, ih]
 
 theorem eventDefs_flatMap_strUsages (f : Path) (decos : List Expr) (g : Expr → List (String × Range)) :
-    eventDefs (decos.flatMap (fun d => (g d).map (strUsage f (· + 1) (· - 1)))) = [] := by
+    eventDefs (decos.flatMap (fun d => (g d).map (strUsage f lines))) = [] := by
   induction decos with
   | nil => rfl
   | cons d ds ih => simp [List.flatMap_cons, eventDefs_append, eventDefs_strUsages, ih]
@@ -39,7 +39,7 @@ theorem eventDefs_argUsages (f : Path) (l : List Arg) : eventDefs (l.map (argUsa
   | cons x xs ih => simp [eventDefs, argUsage, ih]
 
 theorem eventUsages_file_strUsages (f : Path) (l : List (String × Range)) :
-    ∀ u ∈ eventUsages (l.map (strUsage f (· + 1) (· - 1))), u.file = f := by
+    ∀ u ∈ eventUsages (l.map (strUsage f lines)), u.file = f := by
   induction l with
   | nil => simp [eventUsages]
   | cons x xs ih =>
